@@ -210,11 +210,14 @@ CLAIMED = {
     "C11": dict(
         text="Lean 4 theorems over the reals: StepAnalytical's and GaussianAnalytical's `abel` is the Abel integral of their `func` "
              "as functions of x, for every r1 < r2, A0, sigma (Mathlib measure theory: the shell lemma and the Gaussian integral); "
-             "linear scaling of Abel pairs. Tie: the classes' arrays vs the closed forms the theorems mention, on random grids "
-             "(symmetric or not, odd/even n). Oracle: scipy line-of-sight quadrature of func vs abel for every shipped pair — "
+             "linear scaling of Abel pairs; TransformPair profiles 1, 2, 3, 5, 7: the coded projection expression (each branch, with its "
+             "square roots and logarithms) equals 2∫ source(√(x²+z²)) dz for every 0 < x < 1, as corollaries of the polynomial-piece "
+             "theorem of C10. Tie: the classes' arrays vs the closed forms the theorems mention, on random grids "
+             "(symmetric or not, odd/even n), and the Lean profile expressions evaluated in Float vs transform_pairs.profile<k> / "
+             "TransformPair. Oracle: scipy line-of-sight quadrature of func vs abel for every shipped pair — "
              "Step, Gaussian, Polynomial wrappers, TransformPair profiles 1-7, SampleImage names x sizes x options.",
-        note="Partial: profiles 1-7 and sample images are decided by quadrature, not by theorem (closed forms with many special "
-             "functions). Trusted: Lean kernel + standard axioms; scipy quad as the independent integrator.",
+        note="Partial: profiles 4 (rounded published coefficients) and 6 (not polynomial) and the sample images are decided by "
+             "quadrature, not by theorem. Trusted: Lean kernel + standard axioms; scipy quad as the independent integrator.",
         technique="Lean 4 proof (Mathlib interval/set integrals) + differential correspondence + quadrature oracle",
         design="§3 C11"),
     "C01": dict(
